@@ -7,6 +7,9 @@ GO = "GOFLAGS=-mod=vendor GOPROXY=off GOSUMDB=off GOTOOLCHAIN=local"
 TECH = "contract-based deductive verification: WP-style VCs generated from naive-form go/ssa of /repo against //@ contracts, discharged by z3 5.1 / cvc5 / z3 4.8"
 
 CLAIMED = {
+ "C07": dict(
+   text="Row width: bState.draw is verified to return a row whose display width is at most the width it was given, from (i) the interface contract of decorators (reported width = display width; an obligation for every built-in Decor/Format, assumed for user decorators), (ii) the filler interface contract (emitted width <= available; proved for the bar, spinner and nop fillers) and (iii) the truncation branch. The bar body is proved to occupy exactly the allotted width (bFiller.Fill, sFiller.Fill, both flush closures, the three spinner position closures), every loop of the fillers has a proved variant (termination), struct invariants (non-empty tip frames, width = display width of the bytes, non-nil meta functions) are established by the builders and written only during construction.",
+   note="display width is an additive abstract measure dw (assumed contracts of runewidth.StringWidth/Truncate/FillLeft/FillRight and stripansi.Strip); user meta functions preserve display width (assumption M); fillers and decorators emit no line feed; UTF-8 validity is not modelled; A-SYNC for synchronised columns (the reply on a width channel is >= the width sent; the peer is verified under C12)", ref="4 C07"),
  "C08": dict(
    text="Every obligation generated from internal.Percentage and internal.PercentageRound (no overflow, zero, full, range, integrality, nearest within 1/2 + width*2^-50) is discharged for all uint/int64 inputs and width <= 2^31; float64 is axiomatised (correct rounding, relative error 2^-53).",
    note="float64 axioms (DESIGN 2.4), go/ssa, SMT solvers; the filler part of the statement (filled cells, refill) is covered under C07's contracts of bFiller.Fill", ref="4 C08"),
